@@ -954,3 +954,67 @@ _base_scn5 = scenarios
 
 def scenarios():
     return _base_scn5() + [message_encrypt(False, False), message_encrypt(True, False), message_encrypt(False, True)]
+
+
+def pkesk_decrypt_rsa():
+    """PKESessionKeyV3.decrypt_sk, RSA path: the ciphertext integer is handed to the private key as exactly (modulus bits // 8) octets,
+    left-padded with zero octets (an integer with leading zero octets is a legitimate ciphertext: about 1 in 256)"""
+    label = 'C04/PKESessionKeyV3.decrypt_sk[RSA path]'
+
+    def gen(repo):
+        r = scn.Run(repo, PKESK, 'decrypt_sk', label)
+        ex, st = r.ex, r.st
+        PA = repo.enum_members('pgpy.constants.PubKeyAlgorithm')
+        me = E.VObj(PKESK, 'pkt')
+        r.set('pkt', '_pkalg', E.VInt(PA['RSAEncryptOrSign'], enum='pgpy.constants.PubKeyAlgorithm'))
+        r.set('pkt', 'ct', E.VObj('pgpy.packet.fields.RSACipherText', 'ct'))
+        CT = z3.Const('CIPHERTEXT_OCTETS_WITHOUT_LEADING_ZEROS', B)           # what MPI.to_mpibytes()[2:] yields: the minimal big-endian form
+        MPIB = z3.Const('MPI_OCTETS', B)
+        st.pc += [z3.Length(MPIB) >= 2, CT == z3.Extract(MPIB, 2, z3.Length(MPIB) - 2)]
+        r.set('ct', 'me_mod_n', E.VObj('abstract:MPI', 'c'))
+        r.hook('abstract:MPI', 'to_mpibytes', scn.mconst(E.VBytes(MPIB)))
+        BITS = z3.Int('modulus_bits')
+        st.pc += [BITS >= 8, BITS % 8 == 0, z3.Length(CT) <= BITS / 8]       # RSA moduli PGPy handles are whole octets; c < n
+        pk = E.VObj('pgpy.packet.packets.PrivKeyV4', 'recipient')
+        r.set('recipient', 'keymaterial', E.VObj('pgpy.packet.fields.RSAPriv', 'km'))
+        SK = E.VExt('rsa-private-key', ())
+        r.hook('pgpy.packet.fields.RSAPriv', '__privkey__', scn.mconst(SK))
+        h = lambda ex, st, o, a: [(st, E.VInt(BITS))]
+        h.is_method = False
+        ex.hooks[('ext:rsa-private-key', 'key_size')] = h
+        M = z3.Const('DECRYPTED_M', B)
+        st.pc += [z3.Length(M) >= 1, M[0] >= 0, M[0] < 256]
+
+        def dec(ex, st, o, a):
+            st.ghost['rsa_args'] = a
+            return [(st, E.VBytes(M))]
+        ex.hooks[('ext:rsa-private-key', 'decrypt')] = dec
+        for pi, (s, v) in enumerate(r.call(me, [pk])):
+            a = s.ghost.get('rsa_args')
+            if isinstance(v, E.Raise):
+                exc = v.exc.split(':')[0]
+                r.oblige(s, 'rejections-are-errors-raised-after-the-private-key-operation(%s)/p%d' % (exc, pi),
+                         z3.BoolVal(exc in ('PGPDecryptionError', 'ValueError', 'NotImplementedError') and a is not None), v.where)
+                continue
+            r.oblige(s, 'the-private-key-of-the-recipient-decrypts-once/p%d' % pi, z3.BoolVal(a is not None and len(a) == 2))
+            if a is None:
+                continue
+            arg = ex.seq(a[0], s)
+            n = BITS / 8
+            r.oblige(s, 'ciphertext-handed-over-on-exactly-modulus-size-octets/p%d' % pi, z3.Length(arg) == n)
+            r.oblige(s, 'its-low-octets-are-the-ciphertext-integer/p%d' % pi, scn.same_octets(z3.Extract(arg, n - z3.Length(CT), z3.Length(CT)), CT))
+            k = E.fresh('k')
+            # instance of the repetition law  R = X * c  =>  R[k] = X[k mod len X]  at the index asked about
+            inst = [z3.Implies(z3.And(k >= 0, k < z3.Length(R)), R[k] == XX[k % z3.Length(XX)]) for (R, XX, c) in s.ghost.get('repeats', [])]
+            r.obls.append(('%s/padded-with-zero-octets-on-the-left/p%d' % (label, pi), list(s.facts) + list(s.pc) + inst,
+                           z3.Implies(z3.And(k >= 0, k < n - z3.Length(CT)), arg[k] == 0), None))
+            r.oblige(s, 'pkcs1v15/p%d' % pi, z3.BoolVal(isinstance(a[1], E.VExt) and a[1].name.startswith('padding.PKCS1v15')))
+        return r.result()
+    return Scenario(label, PKESK + '.decrypt_sk', gen, props=('C04', 'C03'))
+
+
+_base_scn6 = scenarios
+
+
+def scenarios():
+    return _base_scn6() + [pkesk_decrypt_rsa()]
